@@ -78,7 +78,7 @@ def file_task(task):
                         for r in rows:
                             r["chrom"] = "chr%d" % (1 + (int(r["mutation_id"][1:]) * 7) % 22)
                         inputs.write_table(rows, in_file)
-                crow, assign = inputs.make_clusters(rng, rows, k, outlier_prob_col=cl_probs)
+                crow, assign = inputs.make_clusters(rng, rows, k, outlier_prob_col=cl_probs, textual_ids=sel % 7 == 4)
                 listed_extra = {}
                 if sel % 5 in (1, 3) and not (assign_loss and chrom):
                     # the cluster file also lists mutations the loader does not keep (absent from the data file / major
@@ -178,13 +178,13 @@ def file_task(task):
                     if assign_loss:
                         part.count("assigned_loss_prob_points")
                         if cl_probs is not None:
-                            p = cl_probs[cid % len(cl_probs)]  # the user's column is taken as it is
+                            p = cl_probs[inputs.prob_index(cid, len(cl_probs))]  # the user's column is taken as it is
                         elif chrom:
                             allowed = [low, high]  # assigned from the data: one of the two configured values
                         else:
                             p = low  # documented fallback when no position data exist
                     elif cl_probs is not None:
-                        p = cl_probs[cid % len(cl_probs)]  # same rule as inputs.make_clusters
+                        p = cl_probs[inputs.prob_index(cid, len(cl_probs))]  # same rule as inputs.make_clusters
                         if op == 0:
                             p = 0.0
                         elif p == 0:
